@@ -70,6 +70,10 @@ def atom_text(e, env):
             op = {"<": ">", ">": "<", "<=": ">=", ">=": "<=", "==": "==", "!=": "!="}[op]
         if op == "!=":
             op, neg = "==", True
+        if op in (">", ">=") and not re.fullmatch(r"-?\d+", tb) and not re.fullmatch(r"-?\d+", ta):
+            # between two expressions: one spelling, the `<` one
+            ta, tb, a, b = tb, ta, b, a
+            op = {">": "<", ">=": "<="}[op]
         lit, oth = (strip(b), strip(a)) if re.fullmatch(r"-?\d+", _unparen(norm(_subst(show(strip(b)), env)))) else (strip(a), strip(b))
         integral = lit.get("k") == "Int" and re.search(r"size_t|size_type|\bint\b|\blong\b|unsigned|\bshort\b", oth.get("t") or "") is not None and not re.search(r"double|float", oth.get("t") or "")
         if re.fullmatch(r"-?\d+", tb) and integral:
